@@ -191,6 +191,59 @@ func runGlobals(r *core.Run) {
 			}
 		}
 	}
+	// closures created during package initialisation that write through a captured variable:
+	// the captured variable is shared by every caller of the closure (state hidden from the list of globals)
+	nclos := 0
+	for _, pk := range r.Prog.Pkgs {
+		sp := r.Prog.SSA.Package(pk.Types)
+		if sp == nil {
+			continue
+		}
+		initFn := sp.Func("init")
+		if initFn == nil {
+			continue
+		}
+		var scan func(fn *ssa.Function, depth int)
+		seen := map[*ssa.Function]bool{}
+		scan = func(fn *ssa.Function, depth int) {
+			if fn == nil || seen[fn] || depth > 4 {
+				return
+			}
+			seen[fn] = true
+			for _, b := range fn.Blocks {
+				for _, in := range b.Instrs {
+					switch x := in.(type) {
+					case *ssa.MakeClosure:
+						cf, _ := x.Fn.(*ssa.Function)
+						if cf == nil {
+							continue
+						}
+						nclos++
+						for i, fv := range cf.FreeVars {
+							if w := writesThroughFreeVar(cf, fv); w != nil {
+								r.Fail(fmt.Sprintf("closure %s created at package init writes captured %s", fnLabel(cf), fv.Name()), w.Pos(), "a function value built during package initialisation mutates a variable it captured: that variable is process-wide shared state (instances interfere, concurrent calls race)")
+							}
+							_ = i
+						}
+						scan(cf, depth+1)
+					case *ssa.Call:
+						if f := x.Call.StaticCallee(); f != nil && core.InModule(fnPkg(f)) {
+							scan(f, depth+1)
+						} else if mc, ok := x.Call.Value.(*ssa.MakeClosure); ok {
+							if f, ok := mc.Fn.(*ssa.Function); ok {
+								scan(f, depth+1)
+							}
+						}
+					}
+				}
+			}
+			for _, a := range fn.AnonFuncs {
+				scan(a, depth+1)
+			}
+		}
+		scan(initFn, 0)
+	}
+	r.Count("closures created during package initialisation", nclos)
 	for _, g := range globals {
 		key := "global " + core.RelPkg(g.Pkg.Pkg) + "." + g.Name()
 		if ws := writes[g]; len(ws) > 0 {
@@ -199,6 +252,59 @@ func runGlobals(r *core.Run) {
 			r.OK(key, g.Pos(), "only written by the package initialiser")
 		}
 	}
+}
+
+// writesThroughFreeVar: a store (or copy/append) whose destination derives from the captured variable.
+func writesThroughFreeVar(fn *ssa.Function, fv *ssa.FreeVar) ssa.Instruction {
+	derived := map[ssa.Value]bool{fv: true}
+	for changed := true; changed; {
+		changed = false
+		for _, b := range fn.Blocks {
+			for _, in := range b.Instrs {
+				v, ok := in.(ssa.Value)
+				if !ok || derived[v] {
+					continue
+				}
+				switch x := in.(type) {
+				case *ssa.IndexAddr:
+					if derived[x.X] {
+						derived[v], changed = true, true
+					}
+				case *ssa.FieldAddr:
+					if derived[x.X] {
+						derived[v], changed = true, true
+					}
+				case *ssa.Slice:
+					if derived[x.X] {
+						derived[v], changed = true, true
+					}
+				case *ssa.UnOp:
+					if x.Op == token.MUL && derived[x.X] && isRefType(x.Type()) {
+						derived[v], changed = true, true
+					}
+				}
+			}
+		}
+	}
+	for _, b := range fn.Blocks {
+		for _, in := range b.Instrs {
+			switch x := in.(type) {
+			case *ssa.Store:
+				if derived[x.Addr] {
+					return x
+				}
+			case *ssa.MapUpdate:
+				if derived[x.Map] {
+					return x
+				}
+			case *ssa.Call:
+				if bi, ok := x.Call.Value.(*ssa.Builtin); ok && (bi.Name() == "copy" || bi.Name() == "clear") && derived[x.Call.Args[0]] {
+					return x
+				}
+			}
+		}
+	}
+	return nil
 }
 
 // writesThroughParam: does fn store through its i-th parameter (directly or by
